@@ -9,6 +9,11 @@ CHECKS = {
  "C31": ("proof", "Full functional correctness of the offset->(line,col) functions against the recursive spec taken from the property text, for all strings and offsets: loop invariant + bisect-rank lemma by induction; VCs regenerated from the real source on every run.", NOTE, TECH, "§5 C31"),
  "C33": ("proof", "deduplicate_in_source_space proved for all inputs: no two results share a signature, every result is the first input with its signature, every signature is represented, result sorted by (line, col).", NOTE + "source_signature overrides assumed deterministic and effect-free.", TECH, "§5 C33"),
  "C30": ("proof", "Per-function contracts of the patch pipeline proved for all finite patch lists: _patches_conflict equals the conflict relation of the property; merge keeps a pairwise non-conflicting, duplicate-free, sorted subset and drops only duplicates/conflicting edits; the slicer returns a tiling of [0,len) with no repeated range; the builder's output is the concatenation of one piece per range (first patch with exactly that range, else original text).", NOTE + "Text is an opaque sort with concat/substring; slicer precondition (sorted, in-bounds, distinct ranges, compatible with source-only slices) is what merge and the C10 filter establish.", TECH, "§5 C30"),
+ "C10": ("proof", "The last line of defence is proved for every list of patches the fix engine could yield (generator havocked): after the filter loop of generate_source_patches no kept patch overwrites, or inserts strictly inside, a non-literal raw slice unless it is an explicit source-level patch; raw_slices_spanning_source_slice and source_only_slices have full functional contracts; lemma: a safe patch satisfies the slicer's compat precondition (C30).", NOTE + "Earlier filters (has_template_conflicts, discard_unsafe_fixes, _iter_templated_patches) are not trusted and not needed; source-category patches are the property's own exception.", TECH, "§5 C10"),
+ "C23": ("proof", "Every reporting function (source_position_dict_from_slice, PositionMarker.source_position/to_source_dict, SQLBaseError.__init__, SQLLintError/SQLParseError/LintFix.to_dict incl. the hoisting and create_before/after branches) is proved to report exactly pos(source, offset) of C31 for the offset it names, with start/end offsets agreeing with line/col and lying within the file.", NOTE + "Premise: token source slices are in bounds (C01/C02); desc/rule_code assumed effect-free.", TECH, "§5 C23"),
+ "C07": ("proof", "TemplatedFile.__init__ proved to establish, on every normal return, raw-slice tiling of the source, rendered-slice tiling of the rendered text (when slices and text are given), and the newline tables; since every templater constructs its result through it, the tiling half holds for every templater and variant. RawTemplater.process proved to satisfy the full `valid` predicate (tiling, bounds, literal text equality).", NOTE + "python/jinja/placeholder slicers: bounds and literal-text conjuncts not proved (not covered).", TECH, "§5 C07"),
+ "C26": ("fault_enumeration", "Exhaustive fault enumeration of the real _safe_create_replace_file / persist_tree under injected failures at every primitive call (fail / after / partial / kill) x contents x encodings x modes: target always holds old or complete new bytes, no temp file after a failed write, mode/encoding/BOM/suffix facts; plus syntactic exception-flow obligations (only the rename touches the target, handler covers every may-raise site).", "Atomicity of rename within a directory is assumed; a second fault during clean-up is excluded by assumption. pyvc cannot express the ghost filesystem (no global ghost state), so the deductive route was not possible here.", "fault enumeration on the real code + syntactic exception-flow obligations (contract route not expressible: no ghost state)", "§5 C26"),
+ "C27": ("other", "14 syntactic data-flow obligations on the real source (combine order defaults<user<cwd..file<extra<overrides, nested_combine stores only deep copies, cached loaders never written) plus bounded stand-ins: nested_combine contract exhaustively on small nestings, end-to-end precedence over source subsets, inline-directive effectiveness per entry point, isolation over lint histories.", "nested_combine is outside pyvc's reach (recursive dict datatype); nothing here is counted as proved.", "syntactic data-flow obligations + bounded executable contracts (deductive route not applicable to nested dicts)", "§5 C27"),
  "C29": ("other", "Exhaustive evaluation of contract preconditions (Dialect.ref / bracket lookups / lexer totality) over the finite constant dialect data of all bundled dialects; one obligation per (dialect, reachable reference).", "Reachability over-approximated by a generic object-graph walk; 170 dangling references are known findings.", "exhaustive evaluation of contract preconditions over constant dialect data (E-level, no SMT)", "§5 C29"),
  "C32": ("other", "Frame/effect clauses discharged syntactically over the real AST of every module: the set of filesystem-writing functions is exactly the declared set and none is reachable from lint/parse/render except through explicit output options; bounded dynamic audit-hook cross-check. Repeatability half NOT decided.", "By-name call resolution over-approximates dynamic dispatch; third-party libraries assumed not to write input files.", "syntactic effect (frame) analysis of the real source + bounded audit-hook cross-check", "§5 C32"),
 }
